@@ -514,3 +514,23 @@ Lemma prechosen_sweep :
   held_ids (run_ [0; 0; 0]%nat) 0%nat = [1%N] /\ reserved_ids (wal (run_ [0; 0; 0]%nat)) = [1%N] /\
   ph (bs (run_ [0; 0; 0; 0]%nat) 0%nat) = PDone Released /\ wal (run_ [0; 0; 0; 0]%nat) = demo_wallet.
 Proof. vm_compute. repeat split. Qed.
+
+(* ------------------------------------------------------------------ a finished build does nothing more *)
+(* once a build has been abandoned (released), has failed or has been broadcast, none of its steps changes the
+   wallet, the lock or any build: a released transaction is not sent later, a failed send (Finish with
+   finish = false) has released its inputs *)
+Lemma done_is_final use_lock lock_pre n choose more finish pre start can_sign st b :
+  finished (ph (bs st b)) = true ->
+  step use_lock lock_pre n choose more finish pre start can_sign st b = st.
+Proof.
+  intro H. unfold step. destruct (n <=? b); [reflexivity|].
+  destruct (ph (bs st b)); try discriminate. reflexivity.
+Qed.
+Lemma failed_send_releases use_lock lock_pre n choose more finish pre start can_sign st b :
+  b < n -> ph (bs st b) = PFinish -> finish b = false ->
+  let st' := step use_lock lock_pre n choose more finish pre start can_sign st b in
+  wal st' = release (map uid (held (bs st b))) (wal st) /\ ph (bs st' b) = PDone Released /\ held (bs st' b) = [].
+Proof.
+  intros Hb P F. unfold step. apply Nat.leb_gt in Hb. rewrite Hb, P, F. simpl.
+  unfold upd. rewrite Nat.eqb_refl. simpl. repeat split.
+Qed.
